@@ -2,27 +2,31 @@ package main
 
 import (
 	"fmt"
-	"math/rand"
 	"os"
+	"strings"
 
 	"github.com/tsawler/tabula"
-
-	"verifharness/gen/pdfw"
 )
 
 func main() {
-	r := rand.New(rand.NewSource(11))
-	g := pdfw.GenDoc(r, pdfw.DocOpts{MinPages: 1, MaxPages: 1, MaxLines: 14, MaxFonts: 2, TreeDepth: 1, Inherit: "leaf", NoEmptyPages: true, FontKinds: []string{"t1-winansi"}})
-	for _, tm := range []bool{false, true} {
-		lay := pdfw.BaselineLayout()
-		lay.TmScale = tm
-		b := pdfw.Build(7, lay, []*pdfw.Doc{g.Doc})
-		os.WriteFile("/dev/shm/tm.pdf", b.Bytes, 0o644)
-		fr, _, _ := tabula.Open("/dev/shm/tm.pdf").Fragments()
+	p, tok := os.Args[1], os.Args[2]
+	n, _ := tabula.Open(p).PageCount()
+	for i := 1; i <= n; i++ {
+		fr, _, _ := tabula.Open(p).Pages(i).Fragments()
+		hit := false
 		for _, f := range fr {
-			fmt.Printf("  (%.1f,%.1f) w=%.1f size=%.1f %q\n", f.X, f.Y, f.Width, f.FontSize, f.Text)
+			if strings.Contains(f.Text, tok[len(tok)-5:]) || strings.Contains(f.Text, tok) {
+				hit = true
+			}
 		}
-		t, _, _ := tabula.Open("/dev/shm/tm.pdf").Text()
-		fmt.Printf("%q\n\n", t)
+		if !hit {
+			continue
+		}
+		fmt.Println("page", i)
+		for _, f := range fr {
+			fmt.Printf("   (%.1f,%.1f) w=%.1f size=%.1f font=%s %q\n", f.X, f.Y, f.Width, f.FontSize, f.FontName, f.Text)
+		}
+		t, _, _ := tabula.Open(p).Pages(i).Text()
+		fmt.Printf("%q\n", t)
 	}
 }
